@@ -250,4 +250,51 @@ theorem stepMS_error {ε δ : Type} (parse : ParseOracle ε) (ns : Str → Excep
   · left; exact ⟨_, processStartFlowE_error parse ns f _ d h⟩
   · right; exact h
 
+/-! ### phase 4: the repaired loop; the `literal_eval` wrapper -/
+
+theorem lastEv_internalError_listen (new : List Ev) : lastEv (new ++ (internalErrorEvents ++ [.listen])) = some .listen := by
+  rw [lastEv_append_some _ _ (by simp [internalErrorEvents])]; rfl
+
+theorem genLoopR_spec (step : List Ev → List Ev) :
+    ∀ (fuel : Nat) (events new : List Ev), genLoopR step fuel events new ≠ [] ∧ lastEv (genLoopR step fuel events new) = some .listen := by
+  intro fuel
+  induction fuel with
+  | zero =>
+    intro events new
+    exact ⟨by simp [genLoopR, internalErrorEvents], by simpa [genLoopR] using lastEv_internalError_listen new⟩
+  | succ n ih =>
+    intro events new
+    unfold genLoopR
+    simp only
+    split
+    · rename_i hl
+      have hne := orListen_ne_nil (step events)
+      exact ⟨by intro h; simp_all, by rw [lastEv_append_some _ _ hne]; simpa using hl⟩
+    · split
+      · exact ⟨by simp [internalErrorEvents], lastEv_internalError_listen _⟩
+      · exact ih _ _
+
+theorem generateValueV2R_spec {ε : Type} (literalEval : Str → Except ε Lit) (p : Parser) (lpl out : Str) :
+    (∃ x, generateValueV2R literalEval p lpl out = .ok x ∧ x.isPlain = true)
+    ∨ ∃ v, generateValueV2R literalEval p lpl out = .error (.invalidLlmResponse v) := by
+  obtain ⟨v, hv⟩ := postValueV2_ok p lpl out
+  unfold generateValueV2R
+  simp only [hv]
+  cases h : literalEval v with
+  | error e => right; exact ⟨v, by simp⟩
+  | ok x =>
+    cases hp : x.isPlain with
+    | true => left; exact ⟨x, by simp [hp], hp⟩
+    | false => right; exact ⟨v, by simp [hp]⟩
+
+theorem generateValueV2_spec {ε : Type} (literalEval : Str → Except ε Lit) (p : Parser) (lpl out : Str) :
+    (∃ x, generateValueV2 literalEval p lpl out = .ok x)
+    ∨ ∃ v, generateValueV2 literalEval p lpl out = .error (.invalidLlmResponse v) := by
+  obtain ⟨v, hv⟩ := postValueV2_ok p lpl out
+  unfold generateValueV2
+  simp only [hv]
+  cases h : literalEval v with
+  | error e => right; exact ⟨v, by simp⟩
+  | ok x => left; exact ⟨x, by simp⟩
+
 end NemoVerif.LlmText
